@@ -49,6 +49,24 @@ FetchPartial(u) ==
   /\ UNCHANGED wl
 PartialAccepted ==
   \A u \in PartialRequests : LET r == PartialResult(u) IN r.ok /\ SoundResult(rep, r, wl) /\ r.len = wl
+\* C04 for the additional nodes: every single-field alteration of them is refused or commits only true content
+ExtraAlterations(p) ==
+  LET v == p.up.extra IN
+  UNION {
+    {[p EXCEPT !.up.extra = [v EXCEPT ![j].h = <<"X">>]],
+     [p EXCEPT !.up.extra = [v EXCEPT ![j].idx = @ + 1]],
+     [p EXCEPT !.up.extra = [v EXCEPT ![j].size = @ + 1]],
+     [p EXCEPT !.up.extra = DropAt(v, j)], [p EXCEPT !.up.extra = DupAt(v, j)]}
+    \cup (IF j < Len(v) THEN {[p EXCEPT !.up.extra = SwapAt(v, j)]} ELSE {})
+    \cup (IF v[j].idx > 0 THEN {[p EXCEPT !.up.extra = [v EXCEPT ![j].idx = @ - 1]]} ELSE {})
+    \cup {[p EXCEPT !.up.extra = [v EXCEPT ![j] = TrueNode(i)]] : i \in FullNodes(wl) \ {v[j].idx}}
+    : j \in 1..Len(v)}
+  \cup {[p EXCEPT !.up.extra = <<>>], [p EXCEPT !.up.extra = Append(v, TrueNode(0))]}
+PartialForgeSound ==
+  \A u \in PartialRequests :
+    \A a \in ExtraAlterations(HonestPartialUp(rep, u, wl)) :
+      LET r == VerifyProofX(rep, a, 0, FALSE, "none", <<>>) IN r.ok => SoundResult(rep, r, wl)
+
 PartialLine(u) ==
   LET p == HonestPartialUp(rep, u, wl) IN
   [sizes |-> Sizes, wl |-> wl, hist |-> hist, b |-> -1, h |-> -1, bytes |-> -1, upto |-> u, rl |-> rep.rl,
